@@ -65,9 +65,11 @@ func main() {
 	guardPart("optvalues", func() { partOptionValues(r, refused) })
 	guardPart("e2e", func() { partE2E(r, refused) })
 	guardPart("phases", func() { partPhases(r, refused) })
+	guardPart("attrs", func() { partAttrs(r, refused) })
 
 	for _, c := range []string{"phases_cases", "phases_cases_with_reattempt", "phases_cases_with_one_attempt", "options_calls_streamable", "options_calls_legacy-sse", "options_sequences_with_retry", "options_waits_compared", "options_real_gaps_bounded_below", "options_real_wait_calls",
 		"optvalues_calls_streamable", "optvalues_calls_legacy-sse", "optvalues_clients_built_after_a_different_option_was_created", "optvalues_clients_built_concurrently", "optvalues_sequences_with_retry", "optvalues_waits_compared",
+		"attrs_permanent_faults_at_status_like_ids", "attrs_transient_faults_at_status_like_ids", "attrs_cell_clients", "attrs_id_clients",
 		"direct_scripts_enumerated", "direct_scripts_sampled", "direct_waits_compared", "direct_sequences_with_retry",
 		"cancellations_during_wait", "e2e_scripts_streamable", "e2e_scripts_legacy-sse", "e2e_sequences_with_retry", "validate_configs"} {
 		if r.Counter(c) == 0 && !panicked {
@@ -89,7 +91,11 @@ func main() {
 		"both notification POSTs, the POST answering a server request; Streamable: initialize POST, later POST, both notification POSTs, listening-stream GET, DELETE, answer POST) with each of 22 statuses "+
 		"x 15 bodies (empty, JSON-RPC error objects, texts mentioning connection refused / reset / i/o timeout / EOF / '502 ' / 'code 503' / 'status code: NNN') x 6 content types (quick: every status x body and status x content type pair, thorough: the product), "+
 		"complete 200 answers that are not a result, connection refused / reset / closed before the headers / closed mid-body, scripts of transient failures followed by success or a hostile 4xx, and the caller's context cancelled while the exchange is open; "+
-		"MaxRetries 2 (all), 1 (3, 11 thorough) and no retry option (samples); attempts counted at the client's HTTP boundary. A case is distinct by (part, validated configuration, number of leading transient outcomes, what ended the sequence) and non-trivial when attempts, waits and result all matched the model.",
+		"MaxRetries 2 (all), 1 (3, 11 thorough) and no retry option (samples); attempts counted at the client's HTTP boundary. "+
+		"attrs: for Streamable/JSON, Streamable/event-stream answer and legacy SSE clients with retry, (ids) one client per fault kind whose own request counter is driven through 2..620 (thorough 1640) with mixed operations and then set to large values, "+
+		"the fault injected at every id ending in 408, 409, 429, 500-511, at boundary neighbours and at seeded ids; (cells) one client per attribute value (URL path / query / port / host name, WithClientPath, header, service name, session id, tool / prompt / resource names, params containing status-like and error-like tokens) x every fault kind; "+
+		"fault kinds: 9 permanent exchange failures (non-HTTP bytes, bad status line, bad Content-Length, redirect loop, HTTPS to a plain server, untrusted certificate, unsupported scheme, handler error, NXDOMAIN from the Go resolver), 5 complete non-transient answers, 6 transient; "+
+		"a persistent transient fault must give MaxRetries+1 calls of the HTTPReqHandler for that id, everything else exactly 1. A case is distinct by (part, validated configuration, number of leading transient outcomes, what ended the sequence) and non-trivial when attempts, waits and result all matched the model.",
 		[]string{
 			"the waits are observed at the hook between their computation and time.After; the hook's return value replaces the real wait",
 			"cancellation instants are the logical points 'before the call', 'inside attempt i' and 'when wait j has been computed'; an asynchronous cancel in the middle of a running timer is not driven (it reaches the same select)",
@@ -104,6 +110,8 @@ func main() {
 			"phases: one call of the client's HTTPReqHandler is one attempt of the library (net/http may replay a GET/DELETE on a dead keep-alive connection by itself; arrivals at the server are recorded, not judged)",
 			"phases: a complete HTTP answer is classified by its status alone (408, 409, 429, 5xx transient; every other 4xx and a 200 that is not a usable result not transient), whatever its body or Content-Type says",
 			"phases: exchanges the library sends outside the retry loop (notifications, answers to server requests, listening-stream GET, DELETE) are judged for the bound and for 'no further attempt after a non-transient failure' only; the asynchronous ones are counted after a fixed settling time, which can only hide extra attempts, never invent them",
+			"attrs: a name that does not resolve (NXDOMAIN), TLS / certificate failures, a redirect loop, bytes that are not HTTP, an unsupported scheme and an error returned by a custom HTTPReqHandler are not in the statement's transient set: exactly one attempt",
+			"attrs: a host name in the client's URL is mapped to the scripted server by the request handler's own dialer; NXDOMAIN comes from the real Go resolver pointed at an in-process DNS responder",
 			"phases: answers truncated in the middle of the body and event streams that end early are observed and reported (set phases_open_classes_observed_attempts), only the bound is judged; so is an empty 200 body",
 		})
 }
